@@ -310,6 +310,15 @@ def roundtrip(shape, fmt, mk):
                 else:
                     cur.dump_tar("/fake/out.tar")
                     cur = outmod.Output.load_tar("/fake/out.tar")
+            # a loaded object owns its data: loading ANOTHER output afterwards (same process, same format) must not change it
+            other = make_output(lambda n: mk("other|" + n), [("F2_total", 1, 1, 4)])
+            if fmt.split("+")[-1] == "yaml":
+                st = Stream()
+                other.dump_yaml(st)
+                outmod.Output.load_yaml(st)
+            else:
+                other.dump_tar("/fake/other.tar")
+                outmod.Output.load_tar("/fake/other.tar")
         finally:
             delattr(resmod, "float")
             delattr(resmod, "int")
@@ -349,6 +358,15 @@ def replay_roundtrip(args):
                 else:
                     cur.dump_tar(f"{d}/o{i}.tar")
                     cur = outmod.Output.load_tar(f"{d}/o{i}.tar")
+            other = make_output(lambda n: mk("other|" + n), [("F2_total", 1, 1, 4)])
+            for r in other["F2_total"]:
+                for key in r.orders:
+                    r.orders[key] = tuple(np.array(t, dtype=float) for t in r.orders[key])
+            if args["fmt"].split("+")[-1] == "yaml":
+                outmod.Output.load_yaml(other.dump_yaml())
+            else:
+                other.dump_tar(f"{d}/other.tar")
+                outmod.Output.load_tar(f"{d}/other.tar")
     except Exception as e:  # noqa
         return True, f"shape {shape} via {args['fmt']}: {type(e).__name__}: {e}"
     diffs = compare_outputs(ref, cur)
